@@ -102,14 +102,22 @@ pub struct Strategy {
     /// base strategy when a victim strategy has no opinion: seq | rand
     #[serde(default)]
     pub base: Option<String>,
+    /// further (strategy name, job) pairs applied on top, e.g. park one job's start while
+    /// another job's completion message is held back
+    #[serde(default)]
+    pub also: Vec<(String, String)>,
 }
 
 impl Strategy {
     pub fn seq() -> Self {
-        Strategy { name: "seq".into(), seed: 0, victim: None, depth: 0, horizon: 0, base: None }
+        Strategy { name: "seq".into(), seed: 0, victim: None, depth: 0, horizon: 0, base: None, also: vec![] }
     }
     pub fn label(&self) -> String {
         match &self.victim {
+            Some(v) if !self.also.is_empty() => {
+                let more: Vec<String> = self.also.iter().map(|(n, j)| format!("{n}({j})")).collect();
+                format!("{}({})+{}", self.name, v, more.join("+"))
+            }
             Some(v) => format!("{}({})", self.name, v),
             None if self.name == "pct" => format!("pct({})", self.depth),
             None => self.name.clone(),
